@@ -66,7 +66,21 @@ def gen(tier, rng):
     for d in datas:
         for u in (range(8) if len(d) else [0]):
             out.append("bits.bit %d %s 0 %d" % (u, hx(d), 8 * len(d) - u + 17))
+    # BitString::new's documented assertion (unused <= 7, and 0 for an empty string): violated on purpose; both
+    # sides must refuse (a panic in the crate, the model's Err.panic). Added after mutation run 4 weakened the
+    # assertion unnoticed.
+    for u, d in ((8, b"\x00"), (9, b"\xff\x00"), (255, b"\x01"), (1, b""), (7, b"")):
+        out.append("bits.bit %d %s 0 4" % (u, hx(d)))
     return out
+
+def panic_expected(r):
+    if not r.startswith("bits.bit "):
+        return False
+    t = r.split(" ")
+    return int(t[1]) > 7 or (t[2] == "-" and int(t[1]) != 0)
+
+def canon(req, ans):
+    return "PANIC" if ans.startswith("PANIC") else ans
 
 def nontrivial(req, ans):
     return ans.startswith("ok") or ans.startswith("len=")
